@@ -614,8 +614,14 @@ impl Runner {
             let s = self.h.exec_line("snap");
             o.line("snap", &s);
             let mut mons = vec![];
-            crate::monitors::tx_monitors(&self.h, &mut self.ms, &before, line, &res, &mut mons);
-            crate::monitors::state_monitors(&self.h, &mut self.ms, &mut mons);
+            // the monitors issue queries to the real contracts; a contract query that PANICS (cw-multi-test does not
+            // catch it) must not take the harness down: the monitor lines of this step computed so far are kept and
+            // the event is reported as a line of its own, which the model side judges (it never panics in a query)
+            let h = &self.h; let ms = &mut self.ms;
+            let r = crate::guarded(|| { crate::monitors::tx_monitors(h, ms, &before, line, &res, &mut mons); Ok(()) });
+            if r.is_err() { mons.push("mon_query_panicked tx".to_string()); }
+            let r = crate::guarded(|| { crate::monitors::state_monitors(h, ms, &mut mons); Ok(()) });
+            if r.is_err() { mons.push("mon_query_panicked state".to_string()); }
             for m in mons { o.line(&m, "ok"); }
             // ---- fault enumeration monitors (C20)
             let kind = crate::monitors::parse_tx(line).map(|t| t.kind).unwrap_or(if line.starts_with("send") { "send".into() } else { "other".into() });
